@@ -200,9 +200,14 @@ std::vector<std::string> allTypeNames() {
 }
 
 bool synthModel(NifFile& nif, const std::string& type, const std::string& ver, uint64_t seed, int count, uint32_t maxCount) {
-	NiFactory* fac = NiFactoryRegister::Get().GetFactoryByName(type);
-	if (!fac)
-		return false;
+	// "A+B+C": instance k is of type number k mod 3 (mixed graphs)
+	std::vector<NiFactory*> facs;
+	for (auto& t : split(type, '+')) {
+		NiFactory* f = NiFactoryRegister::Get().GetFactoryByName(t);
+		if (!f)
+			return false;
+		facs.push_back(f);
+	}
 	nif.Create(versionByName(ver));
 	NiHeader& hdr = nif.GetHeader();
 	const uint32_t nstr = 4;
@@ -218,7 +223,7 @@ bool synthModel(NifFile& nif, const std::string& type, const std::string& ver, u
 	tr.maxCount = maxCount;
 	auto root = hdr.GetBlock<NiNode>(0u);
 	for (int k = 0; k < count; ++k) {
-		std::unique_ptr<NiObject> blk = fac->Create();
+		std::unique_ptr<NiObject> blk = facs[static_cast<size_t>(k) % facs.size()]->Create();
 		{
 			std::istringstream empty;
 			NiIStream is(&empty, &hdr);
